@@ -19,7 +19,7 @@ import shutil
 import sys
 import time
 
-from common import REPO, VERIF, coq_list, coq_bool
+from common import REPO, VERIF, source_pins, coq_list, coq_bool
 
 TRUSTED_BASE = [
     "Coq 8.16.1 kernel + coqc (vm_compute only to evaluate the model on correspondence cases; no native_compute)",
@@ -51,6 +51,19 @@ RULE = ("reactants: random molecules of 2-12 atoms incl. H (1-2 molecules, eleme
         "graph under a random atom permutation with shuffled edge order; a case is non-trivial when the enumeration "
         "issues at least one candidate isomorphism query; distinct by (reactant, edit, permutation, skip flag)")
 
+# every function the hand model coq/C04/Model.v (and the structure-mirroring parts of this harness) was written from
+PINS = [("autode/bond_rearrangement.py", q) for q in (
+    "get_bond_rearrangs", "save_bond_rearrangs_to_file", "get_bond_rearrangs_from_file",
+    "add_bond_rearrangment", "generate_rearranged_graph",
+    "get_fbonds_bbonds_1b", "get_fbonds_bbonds_2b", "get_fbonds_bbonds_1b1f", "get_fbonds_bbonds_2b1f",
+    "get_fbonds_bbonds_2b2f", "strip_equiv_bond_rearrs", "prune_small_ring_rearrs",
+    "BondRearrangement.__init__", "BondRearrangement.__eq__", "BondRearrangement.active_atoms",
+    "BondRearrangement.n_membered_rings", "BondRearrangement.get_active_atom_neighbour_lists")] + \
+       [("autode/mol_graphs.py", q) for q in (
+           "get_bond_type_list", "get_fbonds", "is_isomorphic", "MolecularGraph.node_matcher", "find_cycles",
+           "make_graph", "union")] + \
+       [("autode/atoms.py", "Atom.maximal_valance"), ("autode/species/complex.py", "Complex.__init__")]
+
 SLICE = ["C04/Model.v", "C04/Lemmas.v", "C04/Props.v", "C04/Corr.v"]
 PRE = ("From Coq Require Import String Ascii.\nFrom Coq Require Import Arith List Bool.\n"
        "From AV.lib Require Import QcInst.\nFrom AV.C04 Require Import Model Corr.\nImport ListNotations.\n"
@@ -58,7 +71,7 @@ PRE = ("From Coq Require Import String Ascii.\nFrom Coq Require Import Arith Lis
 
 ELEMS = ["H", "B", "C", "N", "O", "F", "S", "Cl"]      # random generator; directed families also use Si Br I
 CHEM_VAL = {"H": 1, "B": 3, "C": 4, "N": 3, "O": 2, "F": 1, "S": 2, "Cl": 1}
-QUERY_CAP_QUICK = 500
+QUERY_CAP_QUICK = 250
 QUERY_CAP_THOROUGH = 2500
 ISO_TIMEOUT_S = 4.5
 
@@ -933,7 +946,7 @@ def build_cases(ctx):
     rng = ctx.rng
     quick = ctx.quick
     cases = []
-    n_prem = 170 if quick else 2000
+    n_prem = 130 if quick else 2000
     for i in range(n_prem):
         ma = rng.choice([4, 6, 7, 8, 9, 10, 12]) if quick else rng.choice([4, 6, 8, 9, 10, 11, 12, 12])
         c = gen_case(rng, ma, "premise")
@@ -959,7 +972,7 @@ def build_cases(ctx):
                 cases.append(c)
     # exhaustive edits of a few small reactants (all valence-respecting edits with <=2/<=2 bonds)
     n_exh = 2 if quick else 10
-    lim = 60 if quick else 400
+    lim = 40 if quick else 400
     for i in range(n_exh):
         reac = gen_reactant(rng, 6 if quick else 7)
         syms, edges = flat_reactant(reac)
@@ -1007,6 +1020,10 @@ def run_cases(ctx, cases, cap):
 def run(ctx):
     sys.path.insert(0, REPO)
     load_maxval()
+    pins_changed = source_pins(ctx.pid, PINS)
+    ctx.cov["source_pins"] = {"pinned": len(PINS), "changed": pins_changed}
+    if pins_changed:
+        ctx.log("source pins changed:", ", ".join(pins_changed))
     # 1. proofs
     proofs_ok, info = ctx.proofs(SLICE, "C04/Props.v", "AV.C04.Props", extra_targets=["C04/Corr.vo"])
     ctx.log("proofs:", "ok" if proofs_ok else "BROKEN")
@@ -1055,6 +1072,9 @@ def run(ctx):
                           found_input=False)
         else:
             ctx.log("correspondence disagreements explained by the implementation-level findings above")
+    if pins_changed and not findings and not (corr_bad or corr_err) and proofs_ok:
+        ctx.violation("hand model no longer pinned to the source: " + ", ".join(pins_changed),
+                      {"kind": "source-pin", "changed": pins_changed}, found_input=False)
 
 
 def replay(ctx, obj):
